@@ -636,6 +636,8 @@ func symxBytesOfLit(fr *frame, args []value) value {
 type ufApp struct {
 	in  []value
 	out []*smt.Term
+
+	concrete bool // computed by the real function
 }
 
 func symxDigest(fr *frame, args []value) value {
@@ -673,33 +675,34 @@ func shaSum(fr *frame, args []value) value {
 }
 
 func (ex *Exec) sha256(in []value) array {
-	if !containsSymDeep(in) {
+	c := ex.ctx
+	app := ufApp{in: append([]value(nil), in...)}
+	out := make(array, 32)
+	concrete := !containsSymDeep(in)
+	if concrete {
 		b := make([]byte, len(in))
 		for k, e := range in {
 			b[k] = e.(uint8)
 		}
 		sum := sha256.Sum256(b)
-		out := make(array, 32)
-		app := ufApp{in: append([]value(nil), in...)}
 		for k := range out {
 			out[k] = sum[k]
-			app.out = append(app.out, ex.ctx.Const(8, uint64(sum[k])))
+			app.out = append(app.out, c.Const(8, uint64(sum[k])))
 		}
-		if len(ex.ufApps) < 64 {
-			ex.ufApps = append(ex.ufApps, app) // so that later symbolic applications are related to it
+		app.concrete = true
+	} else {
+		for k := range out {
+			v := ex.freshVar("sha256", 8)
+			app.out = append(app.out, v)
+			out[k] = sym{v, types.Uint8}
 		}
-		return out
-	}
-	c := ex.ctx
-	app := ufApp{in: append([]value(nil), in...)}
-	out := make(array, 32)
-	for k := range out {
-		v := ex.freshVar("sha256", 8)
-		app.out = append(app.out, v)
-		out[k] = sym{v, types.Uint8}
 	}
 	// functional consistency and collision freedom against earlier applications
+	// (two concrete applications need no axiom: the real function was computed)
 	for _, prev := range ex.ufApps {
+		if prev.concrete && concrete {
+			continue
+		}
 		var inEq *smt.Term
 		if len(prev.in) != len(app.in) {
 			inEq = c.False
@@ -722,6 +725,12 @@ func (ex *Exec) sha256(in []value) array {
 			ex.assume(c.Eq(inEq, preEq))
 		}
 		ex.assume(c.Eq(inEq, outEq))
+	}
+	if concrete {
+		if len(ex.ufApps) < 256 {
+			ex.ufApps = append(ex.ufApps, app) // so that symbolic applications are related to it
+		}
+		return out
 	}
 	if ex.digestMod > 0 {
 		ex.assume(c.Eq(c.Bin(smt.OBvUrem, app.out[ex.digestIdx], c.Const(8, ex.digestMod)), c.Const(8, ex.digestRem)))
